@@ -149,9 +149,10 @@ def _rebuild(node, keys, names):
 class ModelRaised(NotConst):
     """Evaluating a modelled pure call raised a Python exception (the repository expression would raise it too)."""
 
-    def __init__(self, name, text=""):
+    def __init__(self, name, text="", value=None):
         NotConst.__init__(self, f"{name}: {text}")
         self.name = name
+        self.value = value
 
 
 STR_METHODS = {"startswith", "endswith", "rstrip", "lstrip", "strip", "count", "find", "rfind", "replace", "isdigit", "splitlines",
@@ -173,6 +174,29 @@ def _eval_any(node, env, funcs):
         return const_eval(node, env)
     except NotConst:
         return const_eval(_fold(node, env, funcs), env)
+
+
+class _Lambda:
+    _sa_model = True
+
+    def __init__(self, node, env, funcs):
+        self.node, self.env, self.funcs = node, env, funcs
+
+    def __call__(self, *args, **kwargs):
+        a = self.node.args
+        params = [x.arg for x in list(a.posonlyargs) + list(a.args)]
+        defaults = dict(zip(params[len(params) - len(a.defaults):], a.defaults))
+        env = dict(self.env)
+        for i, pname in enumerate(params):
+            if i < len(args):
+                env[pname] = args[i]
+            elif pname in kwargs:
+                env[pname] = kwargs[pname]
+            elif pname in defaults:
+                env[pname] = _eval_any(defaults[pname], self.env, self.funcs)
+        if a.vararg is not None:
+            env[a.vararg.arg] = tuple(args[len(params):])
+        return _eval_any(self.node.body, env, self.funcs)
 
 
 def _fstring(node, env, funcs):
@@ -231,6 +255,8 @@ def _comprehension(node, env, funcs):
         return dict(out)
     if isinstance(node, ast.SetComp):
         return set(out)
+    if isinstance(node, ast.GeneratorExp):
+        return iter(out)
     return out
 
 
@@ -244,12 +270,33 @@ def _fold(node, env, funcs):
         return [_fold(x, env, funcs) for x in node]
     if not isinstance(node, ast.AST):
         return node
+    if isinstance(node, ast.Name):
+        if isinstance(node.ctx, ast.Load) and node.id not in env and node.id in funcs:
+            return ast.Constant(value=funcs[node.id])       # a module-level function / class used as a value (e.g. passed as a callback)
+        return node
     hit = _FOLDABLE.get(id(node))
     if hit is None or hit[0] is not node:
-        hit = (node, any(isinstance(x, (ast.Call, ast.Attribute, ast.JoinedStr, ast.ListComp, ast.SetComp, ast.GeneratorExp, ast.DictComp)) for x in ast.walk(node)))
+        hit = (node, any(isinstance(x, (ast.Call, ast.Attribute, ast.JoinedStr, ast.Lambda, ast.NamedExpr, ast.IfExp, ast.ListComp, ast.SetComp, ast.GeneratorExp, ast.DictComp)) for x in ast.walk(node)))
         _FOLDABLE[id(node)] = hit
     if not hit[1]:
         return node          # nothing to fold below: share the (never mutated) node
+    if isinstance(node, ast.IfExp):
+        # lazily: only the chosen branch is evaluated (the other one may legitimately be ill-typed)
+        return ast.Constant(value=_eval_any(node.body if _eval_any(node.test, env, funcs) else node.orelse, env, funcs))
+    if isinstance(node, ast.BoolOp):
+        v = None
+        for operand in node.values:
+            v = _eval_any(operand, env, funcs)
+            if (not v) if isinstance(node.op, ast.And) else bool(v):
+                break
+        return ast.Constant(value=v)
+    if isinstance(node, ast.Lambda):
+        return ast.Constant(value=_Lambda(node, env, funcs))
+    if isinstance(node, ast.NamedExpr) and isinstance(node.target, ast.Name):
+        v = _eval_any(node.value, env, funcs)
+        env[node.target.id] = v
+        env.setdefault("__walrus__", set()).add(node.target.id)      # subst_eval copies these back into the caller's namespace
+        return ast.Constant(value=v)
     if isinstance(node, ast.JoinedStr):
         try:
             return ast.Constant(value=_fstring(node, env, funcs))
@@ -260,46 +307,66 @@ def _fold(node, env, funcs):
     if isinstance(node, (ast.ListComp, ast.SetComp, ast.GeneratorExp, ast.DictComp)):
         try:
             return ast.Constant(value=_comprehension(node, env, funcs))
+        except ModelRaised:
+            raise
         except NotConst:
             pass
     new = node.__class__()
     for f in node._fields:
         if hasattr(node, f):
             setattr(new, f, _fold(getattr(node, f), env, funcs))
-    if isinstance(new, ast.Attribute) and isinstance(getattr(new, "ctx", None), ast.Load) and not new.attr.startswith("__") and new.attr != "_sa_model":
+    if isinstance(new, ast.Attribute) and isinstance(getattr(new, "ctx", None), ast.Load) and (not new.attr.startswith("__") or new.attr in ("__doc__", "__name__", "__class__", "__init__")) and new.attr != "_sa_model":
         try:
             recv = const_eval(new.value, env)
         except NotConst:
             recv = None
-        if getattr(recv, "_sa_model", False) and hasattr(recv, new.attr) and not callable(getattr(recv, new.attr)):
-            return ast.Constant(value=getattr(recv, new.attr))   # data attribute of a checker-supplied model object
+        if isinstance(recv, RepoClass) and new.attr == "__init__":
+            return ast.Constant(value=recv.__getattr__("__init__"))    # Base.__init__(self, ...): the repository's initialiser, unbound
+        if getattr(recv, "_sa_model", False) and hasattr(recv, new.attr):
+            return ast.Constant(value=getattr(recv, new.attr))   # data attribute / bound method of a model object
+        if recv is None and isinstance(new.value, (ast.Name, ast.Constant)) and (not isinstance(new.value, ast.Name) or new.value.id in env):
+            raise ModelRaised("AttributeError", f"'NoneType' object has no attribute {new.attr!r}")
     if isinstance(new, ast.Call):
         try:
             callee = dotted(node.func)
+
+            def value_of(e_):
+                try:
+                    return const_eval(e_, env)
+                except NotConst:
+                    if isinstance(e_, ast.Name) and e_.id not in env and e_.id in funcs:
+                        return funcs[e_.id]            # a module-level function / class passed as a value
+                    raise
 
             def actuals():
                 args = []
                 for a_ in new.args:
                     if isinstance(a_, ast.Starred):
-                        args.extend(list(const_eval(a_.value, env)))
+                        args.extend(list(value_of(a_.value)))
                     else:
-                        args.append(const_eval(a_, env))
+                        args.append(value_of(a_))
                 kw = {}
                 for k_ in new.keywords:
                     if k_.arg is None:
-                        kw.update(dict(const_eval(k_.value, env)))
+                        kw.update(dict(value_of(k_.value)))
                     else:
-                        kw[k_.arg] = const_eval(k_.value, env)
+                        kw[k_.arg] = value_of(k_.value)
                 return args, kw
             if callee is not None and callee in funcs:
                 args, kw = actuals()
                 return ast.Constant(value=funcs[callee](*args, **kw))
+            if isinstance(new.func, ast.Name) and callable(env.get(new.func.id)) and not isinstance(env.get(new.func.id), type):
+                args, kw = actuals()
+                return ast.Constant(value=env[new.func.id](*args, **kw))
+            if isinstance(new.func, ast.Constant) and callable(new.func.value):
+                args, kw = actuals()
+                return ast.Constant(value=new.func.value(*args, **kw))
             if isinstance(new.func, ast.Attribute):
                 try:
                     recv = const_eval(new.func.value, env)
                 except NotConst:
                     recv = None
-                if isinstance(recv, (str, bytes, bytearray)) and new.func.attr in STR_METHODS:
+                if isinstance(recv, (str, bytes, bytearray, memoryview)) and new.func.attr in STR_METHODS:
                     args, kw = actuals()
                     return ast.Constant(value=getattr(recv, new.func.attr)(*args, **kw))
                 if isinstance(recv, _CONTAINERS) and new.func.attr in CONTAINER_METHODS:
@@ -313,11 +380,11 @@ def _fold(node, env, funcs):
                 if isinstance(recv, _re.Match) and new.func.attr in ("group", "groups", "start", "end", "span", "groupdict"):
                     args, kw = actuals()
                     return ast.Constant(value=getattr(recv, new.func.attr)(*args, **kw))
-                if getattr(recv, "_sa_model", False) and not new.func.attr.startswith("_"):
+                if getattr(recv, "_sa_model", False) and not new.func.attr.startswith("__"):
                     # a checker-supplied model object standing for a repository object (e.g. a queue)
                     args, kw = actuals()
                     return ast.Constant(value=getattr(recv, new.func.attr)(*args, **kw))
-        except ModelRaised:
+        except (ModelRaised, InterpError):
             raise
         except NotConst:
             pass
@@ -345,7 +412,22 @@ def subst_eval(expr: ast.AST, mapping: Dict[str, object], env: Optional[dict] = 
     try:
         return const_eval(e2, full)
     except NotConst:
-        return const_eval(_fold(e2, full, funcs or {}), full)
+        try:
+            for _attempt in range(8):
+                try:
+                    return const_eval(_fold(e2, full, funcs or {}), full)
+                except ModelRaised:
+                    raise
+                except NotConst as ex:
+                    nm = str(ex)
+                    if funcs is not None and nm.isidentifier() and nm not in full and nm in funcs:
+                        full[nm] = funcs[nm]          # a module-level function / class used as a plain value
+                        continue
+                    raise
+        finally:
+            if env is not None:
+                for nm in full.pop("__walrus__", ()):
+                    env[nm] = full[nm]
 
 
 def handler_names(h: ast.ExceptHandler) -> List[str]:
@@ -470,7 +552,7 @@ OS_FUNCS["os.fsdecode"] = lambda p: p.decode("utf-8") if isinstance(p, bytes) el
 
 BUILTIN_FUNCS = {"isinstance": isinstance, "abs": abs, "bool": bool, "sum": sum, "any": any, "all": all, "divmod": divmod, "reversed": lambda x: list(reversed(x)),
                  "enumerate": lambda x, *a: list(enumerate(x, *a)), "zip": lambda *a: list(zip(*a)), "repr": repr, "memoryview": memoryview, "hex": hex,
-                 "iter": iter, "next": next, "type": type, "round": round, "float": float, "slice": slice,
+                 "iter": iter, "next": next, "type": type, "getattr": getattr, "hasattr": hasattr, "callable": callable, "round": round, "float": float, "slice": slice,
                  # these are also known to the plain evaluator, which however loses the exception type: here a failure becomes the modelled exception
                  "int": int, "sorted": sorted, "min": min, "max": max, "len": len, "list": list, "tuple": tuple, "dict": dict, "set": set, "str": str, "bytes": bytes,
                  "map": lambda f, *its: [f(*a) for a in zip(*its)], "filter": lambda f, it: [x for x in it if (f(x) if f is not None else x)],
@@ -483,10 +565,15 @@ _EXC_PARENTS = {"UnicodeDecodeError": ["UnicodeError", "ValueError"], "UnicodeEn
                 "ZeroDivisionError": ["ArithmeticError"], "OverflowError": ["ArithmeticError"], "StopIteration": [], "NotImplementedError": ["RuntimeError"]}
 
 
+LAST_RAISED = [None]              # value of the exception with which the most recent interpret() ended (None when only its name is known)
+CURRENT_EXC: List[str] = []      # names of the exceptions being handled by interpreted ``except`` blocks (innermost last)
+
+
 class _Raised(Exception):
-    def __init__(self, name):
+    def __init__(self, name, value=None):
         Exception.__init__(self, name)
         self.name = name
+        self.value = value          # the modelled exception instance (MExc) when the raise expression could be evaluated
 
 
 class _Break(Exception):
@@ -512,7 +599,7 @@ def _exc_matches(raised: str, handler: ast.ExceptHandler) -> bool:
 
 
 def interpret(func, args: Dict[str, object], mapping: Optional[Dict[str, object]] = None, max_steps: int = 20000, funcs: Optional[dict] = None,
-              nested_call=lambda *a: None, state: Optional[dict] = None):
+              nested_call=lambda *a: None, state: Optional[dict] = None, _env_out=None, on_yield=None):
     """Finite-domain evaluation of a *pure* repository function with the whitelisted evaluator (no
     repository code runs): Assign (names, tuples, attributes, subscripts) / AugAssign / If / For / While /
     Break / Continue / Try / Return / Raise / Assert / Pass / docstring.  The expressions listed in
@@ -526,17 +613,20 @@ def interpret(func, args: Dict[str, object], mapping: Optional[Dict[str, object]
     for k_, v_ in OS_MAPPING.items():
         mp.setdefault(k_, v_)
     mp.update(mapping or {})
-    fs = dict(BUILTIN_FUNCS)
-    fs.update(OS_FUNCS)
-    fs.update(funcs or {})
+    base_fs = dict(BUILTIN_FUNCS)
+    base_fs.update(OS_FUNCS)
+    base_fs.update(funcs or {})
+    fs = _FuncTable(base_fs, getattr(funcs, "resolve", None))
     steps = [0]
     current: List[str] = []
+    if "Failure" not in base_fs:
+        fs["Failure"] = lambda *a, **k: MFailure(a[0] if a else MExc(current[-1] if current else "<no active exception>"))
 
     def ev(e):
         try:
             return subst_eval(e, mp, env, fs)
         except ModelRaised as ex:
-            raise _Raised(ex.name)
+            raise _Raised(ex.name, getattr(ex, "value", None))
         except NotConst as ex:
             raise InterpError(f"not evaluable: {src(e)} ({ex})")
 
@@ -552,8 +642,24 @@ def interpret(func, args: Dict[str, object], mapping: Optional[Dict[str, object]
                 raise _Raised("ValueError")
             for a, b in zip(t.elts, vs):
                 assign(a, b)
-        elif isinstance(t, (ast.Attribute, ast.Subscript)):
-            mp[src(t)] = v       # later reads of the same expression see the stored value
+        elif isinstance(t, ast.Attribute):
+            try:
+                owner = subst_eval(t.value, mp, env, fs)
+            except NotConst:
+                owner = None
+            if isinstance(owner, RepoObject) or (getattr(owner, "_sa_model", False) and getattr(owner, "_sa_settable", False)):
+                setattr(owner, t.attr, v)
+            else:
+                mp[src(t)] = v       # later reads of the same expression see the stored value
+        elif isinstance(t, ast.Subscript):
+            try:
+                box = subst_eval(t.value, mp, env, fs)
+            except NotConst:
+                box = None
+            if isinstance(box, (list, dict, bytearray)) and not isinstance(t.slice, ast.Slice):
+                box[ev(t.slice)] = v
+            else:
+                mp[src(t)] = v
         else:
             raise InterpError(f"assignment target not modelled: {src(t)}")
 
@@ -564,6 +670,17 @@ def interpret(func, args: Dict[str, object], mapping: Optional[Dict[str, object]
                 raise InterpError("step limit")
             if isinstance(st, ast.Expr):
                 if isinstance(st.value, ast.Constant):
+                    continue
+                if isinstance(st.value, (ast.Yield, ast.YieldFrom)):
+                    # a generator body run by a depth-first trampoline: the consumer handles each yielded value before the body continues
+                    if on_yield is None:
+                        raise InterpError("yield outside a modelled trampoline")
+                    v = ev(st.value.value) if st.value.value is not None else None
+                    if isinstance(st.value, ast.YieldFrom):
+                        for item in (v.items(on_yield) if isinstance(v, GenThunk) else list(v)):
+                            on_yield(item)
+                    else:
+                        on_yield(v)
                     continue
                 ev(st.value)
             elif isinstance(st, (ast.Pass, ast.Import, ast.ImportFrom, ast.Global, ast.Nonlocal)):
@@ -576,7 +693,14 @@ def interpret(func, args: Dict[str, object], mapping: Optional[Dict[str, object]
                 if st.value is not None:
                     assign(st.target, ev(st.value))
             elif isinstance(st, ast.AugAssign):
-                load = ast.Name(id=st.target.id, ctx=ast.Load()) if isinstance(st.target, ast.Name) else st.target
+                if isinstance(st.target, ast.Name):
+                    load = ast.Name(id=st.target.id, ctx=ast.Load())
+                elif isinstance(st.target, ast.Attribute):
+                    load = ast.Attribute(value=st.target.value, attr=st.target.attr, ctx=ast.Load())
+                elif isinstance(st.target, ast.Subscript):
+                    load = ast.Subscript(value=st.target.value, slice=st.target.slice, ctx=ast.Load())
+                else:
+                    raise InterpError(f"augmented assignment target not modelled: {src(st.target)}")
                 assign(st.target, ev(ast.BinOp(left=load, op=st.op, right=st.value)))
             elif isinstance(st, ast.If):
                 r = block(st.body if ev(st.test) else st.orelse)
@@ -588,7 +712,8 @@ def interpret(func, args: Dict[str, object], mapping: Optional[Dict[str, object]
             elif isinstance(st, ast.For):
                 broke = False
                 try:
-                    items = list(ev(st.iter))
+                    seq_ = ev(st.iter)
+                    items = iter(seq_) if isinstance(seq_, list) else iter(list(seq_))     # a list is iterated live (appends made by the body are seen), as in Python
                 except TypeError:
                     raise _Raised("TypeError")
                 for item in items:
@@ -641,10 +766,14 @@ def interpret(func, args: Dict[str, object], mapping: Optional[Dict[str, object]
                         if h is None:
                             raise
                         current.append(ex.name)
+                        CURRENT_EXC.append(ex.name)
                         try:
+                            if h.name:
+                                env[h.name] = MExc(ex.name)
                             r = block(h.body)
                         finally:
                             current.pop()
+                            CURRENT_EXC.pop()
                 finally:
                     if st.finalbody:
                         r2 = block(st.finalbody)
@@ -658,6 +787,13 @@ def interpret(func, args: Dict[str, object], mapping: Optional[Dict[str, object]
                 if st.exc is None:
                     raise _Raised(current[-1] if current else "RuntimeError")
                 e = st.exc.func if isinstance(st.exc, ast.Call) else st.exc
+                val = None
+                try:
+                    val = subst_eval(st.exc, mp, env, fs)
+                except (NotConst, InterpError):
+                    val = None
+                if isinstance(val, MExc):
+                    raise _Raised(val.name, val)
                 raise _Raised(dotted(e) or src(e))
             elif isinstance(st, ast.Delete):
                 for t in st.targets:
@@ -681,19 +817,49 @@ def interpret(func, args: Dict[str, object], mapping: Optional[Dict[str, object]
                     else:
                         raise InterpError(f"del target not modelled: {src(t)}")
             elif isinstance(st, (ast.FunctionDef, ast.AsyncFunctionDef)):
-                # a nested function is only passed around as a callback; calling it is modelled by the caller's ``funcs`` (default: opaque result)
-                env[st.name] = f"<function {st.name}>"
-                fs.setdefault(st.name, nested_call)
+                if nested_call is None:
+                    clo = Closure(st, env, mp, fs, None, on_yield)          # a real closure: interpreted when called
+                    env[st.name] = clo
+                    fs[st.name] = clo
+                else:
+                    # opaque mode: the nested function is only passed around; calling it is modelled by ``nested_call``
+                    env[st.name] = f"<function {st.name}>"
+                    fs.setdefault(st.name, nested_call)
+            elif isinstance(st, (ast.With, ast.AsyncWith)):
+                managers = [ev(it.context_expr) for it in st.items]
+                for it, m_ in zip(st.items, managers):
+                    if it.optional_vars is not None:
+                        assign(it.optional_vars, m_)
+                try:
+                    r = block(st.body)
+                except _Raised as ex:
+                    if not any(getattr(m_, "_sa_swallow", False) for m_ in managers):
+                        raise
+                    for m_ in managers:
+                        if hasattr(m_, "failed"):
+                            m_.failed = True
+                    r = None
+                if r is not None:
+                    return r
             else:
                 raise InterpError(f"statement not modelled: {type(st).__name__}")
         return None
 
+    def _write_back():
+        if _env_out is not None:
+            for nm in _env_out[1]:
+                if nm in env:
+                    _env_out[0][nm] = env[nm]
+
     try:
         r = block(func.body)
     except _Raised as ex:
+        _write_back()
+        LAST_RAISED[0] = ex.value
         return ("raise", ex.name)
     except (_Break, _Continue):
         raise InterpError("break/continue outside a loop")
+    _write_back()
     return r if r is not None else ("return", None)
 
 
@@ -712,7 +878,7 @@ def module_patterns(mod) -> Dict[str, object]:
     return out
 
 
-def call_repo(fn, args, kwargs=None, selfobj=None, mapping=None, funcs=None, env=None, nested_call=lambda *a: None, state=None):
+def call_repo(fn, args, kwargs=None, selfobj=None, mapping=None, funcs=None, env=None, nested_call=lambda *a: None, state=None, bind_self=True, on_yield=None):
     """Call a repository function by interpreting it: positional/keyword arguments and constant defaults are bound to its
     parameters.  Returns the value; a raise becomes ModelRaised(name) so that an interpreting caller sees the same exception."""
     kwargs = dict(kwargs or {})
@@ -721,7 +887,7 @@ def call_repo(fn, args, kwargs=None, selfobj=None, mapping=None, funcs=None, env
     defaults = dict(zip(params[len(params) - len(a.defaults):], a.defaults))
     bound = dict(env or {})
     actual = list(args)
-    if params and params[0] in ("self", "cls"):
+    if bind_self and params and params[0] in ("self", "cls"):
         bound[params[0]] = selfobj
         params = params[1:]
     for i, pname in enumerate(params):
@@ -730,14 +896,529 @@ def call_repo(fn, args, kwargs=None, selfobj=None, mapping=None, funcs=None, env
         elif pname in kwargs:
             bound[pname] = kwargs.pop(pname)
         elif pname in defaults:
-            bound[pname] = const_eval(defaults[pname], dict(BUILTIN_NAMES))
+            bound[pname] = subst_eval(defaults[pname], {}, dict(BUILTIN_NAMES, **(env or {})), funcs)
         else:
             raise ModelRaised("TypeError", f"missing argument {pname}")
     if a.vararg is not None:
         bound[a.vararg.arg] = tuple(actual[len(params):])
+    if a.kwarg is not None:
+        bound[a.kwarg.arg] = {k_: v_ for k_, v_ in kwargs.items() if k_ not in params}
     for kw_, d_ in zip(a.kwonlyargs, a.kw_defaults):
         bound[kw_.arg] = kwargs.pop(kw_.arg) if kw_.arg in kwargs else (const_eval(d_, dict(BUILTIN_NAMES)) if d_ is not None else None)
-    kind, val = interpret(fn, bound, mapping, funcs=funcs, nested_call=nested_call, state=state)
+    kind, val = interpret(fn, bound, mapping, funcs=funcs, nested_call=nested_call, state=state, on_yield=on_yield)
     if kind == "raise":
-        raise ModelRaised(val.split(".")[-1], "raised by " + getattr(fn, "name", "?"))
+        raise ModelRaised(val.split(".")[-1], "raised by " + getattr(fn, "name", "?"), LAST_RAISED[0])
     return val
+
+
+# ==================================================================================================================
+# A small object world on top of the interpreter: repository classes are instantiated as RepoObject models whose
+# methods are the repository's own functions (interpreted), nested functions become closures, and Deferred / Failure
+# are modelled synchronously.  Nothing of the repository is imported or executed; external collaborators are
+# supplied by the checker as python models.
+# ==================================================================================================================
+class MExc:
+    """an exception instance created by interpreted code: class name + arguments"""
+    _sa_model = True
+
+    def __init__(self, name, args=()):
+        self.name = name
+        self.args = tuple(args)
+
+    def __repr__(self):
+        return f"{self.name}{self.args!r}"
+
+
+class MFailure:
+    _sa_model = True
+
+    def __init__(self, value):
+        self.value = value if isinstance(value, MExc) else MExc(str(value))
+        self.type = self.value.name
+
+    def check(self, *names):
+        return self.value.name if self.value.name in [getattr(n, "name", n) for n in names] else None
+
+    def trap(self, *names):
+        if not self.check(*names):
+            raise ModelRaised(self.value.name, "re-raised by trap")
+        return self.value.name
+
+    def __repr__(self):
+        return f"Failure({self.value!r})"
+
+
+class MDeferred:
+    """synchronous model of twisted.internet.defer.Deferred (callback chain, chaining, cancel)"""
+    _sa_model = True
+
+    def __init__(self, canceller=None):
+        self.callbacks = []
+        self.called = False
+        self.result = None
+        self.fired = []          # every result delivered by callback()/errback() - more than one is AlreadyCalledError
+        self.canceller = canceller
+        self._running = False
+
+    def addCallbacks(self, cb, eb=None, cbArgs=(), cbKw=None, ebArgs=(), ebKw=None, callbackArgs=None, errbackArgs=None, **kw):
+        self.callbacks.append(((cb, tuple(callbackArgs or cbArgs), dict(cbKw or {})), (eb, tuple(errbackArgs or ebArgs), dict(ebKw or {}))))
+        if self.called:
+            self._run()
+        return self
+
+    def addCallback(self, cb, *a, **k):
+        return self.addCallbacks(cb, None, cbArgs=a, cbKw=k)
+
+    def addErrback(self, eb, *a, **k):
+        return self.addCallbacks(None, eb, ebArgs=a, ebKw=k)
+
+    def addBoth(self, f, *a, **k):
+        return self.addCallbacks(f, f, cbArgs=a, cbKw=k, ebArgs=a, ebKw=k)
+
+    def chainDeferred(self, other):
+        return self.addCallbacks(other.callback, other.errback)
+
+    def callback(self, result=None):
+        self._fire(result)
+
+    def errback(self, fail=None):
+        if not isinstance(fail, MFailure):
+            fail = MFailure(fail if fail is not None else MExc(CURRENT_EXC[-1] if CURRENT_EXC else "<no active exception>"))
+        self._fire(fail)
+
+    def cancel(self):
+        if not self.called:
+            if self.canceller is not None:
+                self.canceller(self)
+            if not self.called:
+                self.errback(MFailure(MExc("CancelledError")))
+        elif isinstance(self.result, MDeferred):
+            self.result.cancel()
+
+    def _fire(self, result):
+        self.fired.append(result)
+        if self.called:
+            raise ModelRaised("AlreadyCalledError", "Deferred fired twice")
+        self.called = True
+        self.result = result
+        self._run()
+
+    def _run(self):
+        if self._running:
+            return
+        self._running = True
+        try:
+            while self.callbacks and not isinstance(self.result, MDeferred):
+                (cb, ca, ck), (eb, ea, ek) = self.callbacks.pop(0)
+                f, a, k = (eb, ea, ek) if isinstance(self.result, MFailure) else (cb, ca, ck)
+                if f is None:
+                    continue
+                try:
+                    self.result = f(self.result, *a, **k)
+                except ModelRaised as ex:
+                    self.result = MFailure(ex.value if isinstance(getattr(ex, "value", None), MExc) else MExc(ex.name))
+            if isinstance(self.result, MDeferred):
+                inner = self.result
+                self.result = None
+                self.called = False
+
+                def resume(r, self=self):
+                    self.called = True
+                    self.result = r
+                    self._run()
+                    return None
+                inner.addBoth(resume)
+        finally:
+            self._running = False
+
+
+class Closure:
+    """a nested function of an interpreted function: called with a copy of the defining environment (late binding), ``nonlocal`` names written back"""
+    _sa_model = True
+
+    def __init__(self, fn, env, mp, fs, nested_call, on_yield=None):
+        self.fn, self.env, self.mp, self.fs, self.nested_call, self.on_yield = fn, env, mp, fs, nested_call, on_yield
+        self.name = fn.name
+
+    def __call__(self, *args, **kwargs):
+        a = self.fn.args
+        params = [x.arg for x in list(a.posonlyargs) + list(a.args)]
+        defaults = dict(zip(params[len(params) - len(a.defaults):], a.defaults))
+        env = dict(self.env)
+        for i, pname in enumerate(params):
+            if i < len(args):
+                env[pname] = args[i]
+            elif pname in kwargs:
+                env[pname] = kwargs[pname]
+            elif pname in defaults:
+                env[pname] = subst_eval(defaults[pname], self.mp, self.env, self.fs)
+            else:
+                raise ModelRaised("TypeError", f"{self.name}: missing {pname}")
+        if a.vararg is not None:
+            env[a.vararg.arg] = tuple(args[len(params):])
+        if a.kwarg is not None:
+            env[a.kwarg.arg] = {k_: v_ for k_, v_ in kwargs.items() if k_ not in params}
+        nl = {n for st in ast.walk(self.fn) if isinstance(st, ast.Nonlocal) for n in st.names}
+        kind, val = interpret(self.fn, env, funcs=self.fs, nested_call=self.nested_call, state=self.mp, _env_out=(self.env, nl), on_yield=self.on_yield)
+        if kind == "raise":
+            raise ModelRaised(val.split(".")[-1], "raised in " + self.name, LAST_RAISED[0])
+        return val
+
+    def __repr__(self):
+        return f"<closure {self.name}>"
+
+
+class RepoObject:
+    """instance of a repository class: attributes live in ``_state``; methods are the class's own functions, interpreted"""
+    _sa_model = True
+
+    def __init__(self, world, cls):
+        object.__setattr__(self, "_sa_world", world)
+        object.__setattr__(self, "_sa_cls", cls)
+        object.__setattr__(self, "_sa_state", {})
+
+    def __getattr__(self, name):
+        if name.startswith("__"):
+            raise AttributeError(name)
+        st = object.__getattribute__(self, "_sa_state")
+        if name in st:
+            return st[name]
+        w, cls = object.__getattribute__(self, "_sa_world"), object.__getattribute__(self, "_sa_cls")
+        hit = w.lookup(cls, name)
+        if hit is None:
+            raise AttributeError(name)
+        kind, val = hit
+        if kind == "method":
+            return lambda *a, **k: w.call(val, a, k, selfobj=self)
+        if kind == "python":
+            return lambda *a, **k: val(self, *a, **k)
+        if isinstance(val, Closure):
+            return lambda *a, **k: val(self, *a, **k)        # a function object stored in the class body is a method
+        return val
+
+    def __setattr__(self, name, value):
+        object.__getattribute__(self, "_sa_state")[name] = value
+
+    def __repr__(self):
+        return f"<{object.__getattribute__(self, '_sa_cls').name} model>"
+
+
+class RepoClass:
+    """a repository class as a value: calling it instantiates, attribute access gives classmethods / staticmethods / class-level values"""
+    _sa_model = True
+
+    def __init__(self, world, cls):
+        self._world, self._cls = world, cls
+        self.name = cls.name
+        self.__name__ = cls.name
+
+    def __call__(self, *a, **k):
+        return self._world.new(self._cls, *a, **k)
+
+    def __getattr__(self, name):
+        if name.startswith("__") and name != "__init__":
+            raise AttributeError(name)
+        hit = self._world.lookup(self._cls, name)
+        if hit is None:
+            raise AttributeError(name)
+        kind, val = hit
+        if kind == "method":
+            deco = [src(d) for d in val.decorator_list]
+            if "classmethod" in deco:
+                return lambda *a, **k: self._world.call(val, a, k, selfobj=self)
+            if "staticmethod" in deco:
+                return lambda *a, **k: self._world.call(val, a, k, selfobj=None)
+            return lambda obj, *a, **k: self._world.call(val, a, k, selfobj=obj)        # unbound: Base.method(self, ...)
+        if kind == "python":
+            return val
+        return val
+
+    def __repr__(self):
+        return f"<class {self.name}>"
+
+
+class _FuncTable(dict):
+    def __init__(self, base, resolve):
+        dict.__init__(self, base)
+        self.resolve = resolve
+        self._misses = set()
+
+    def __contains__(self, k):
+        if dict.__contains__(self, k):
+            return True
+        if k in self._misses:
+            return False
+        v = self.resolve(k) if self.resolve else None
+        if v is None:
+            self._misses.add(k)
+        if v is not None:
+            dict.__setitem__(self, k, v)
+            return True
+        return False
+
+    def __missing__(self, k):
+        v = self.resolve(k) if self.resolve else None
+        if v is None:
+            raise KeyError(k)
+        return v
+
+
+_FN_OWNER: Dict[int, tuple] = {}     # id(function node) -> (node, World that owns its module)
+
+
+def _is_stub(fn) -> bool:
+    return all(isinstance(st, ast.Pass) or (isinstance(st, ast.Expr) and isinstance(st.value, ast.Constant)) for st in fn.body)
+
+
+def _is_generator_fn(fn) -> bool:
+    hit = _GENFN.get(id(fn))
+    if hit is None or hit[0] is not fn:
+        hit = (fn, any(isinstance(x, (ast.Yield, ast.YieldFrom)) for x in walk_local(fn) if x is not fn) if isinstance(fn, (ast.FunctionDef, ast.AsyncFunctionDef)) else False)
+        _GENFN[id(fn)] = hit
+    return hit[1]
+
+
+_GENFN: Dict[int, tuple] = {}
+
+
+class GenThunk:
+    """the result of calling a repository generator function: its body runs when a trampoline consumes it; every yielded value is handed to the trampoline's hook first"""
+    _sa_model = True
+
+    def __init__(self, runner, name="?"):
+        self.runner, self.name, self.done = runner, name, False
+
+    def run(self, hook):
+        if self.done:
+            raise ModelRaised("RuntimeError", "generator already consumed")
+        self.done = True
+        return self.runner(hook)
+
+    def items(self, hook):
+        out = []
+        self.run(out.append)
+        return out
+
+    def __repr__(self):
+        return f"<generator {self.name}>"
+
+
+class _FnRef:
+    """a function of a class body used as a value in that body (e.g. the template argument of makeStatefulDispatcher)"""
+    _sa_model = True
+    _sa_settable = True
+
+    def __init__(self, fn):
+        self.fn = fn
+        self.__doc__ = ast.get_docstring(fn)
+
+
+class World:
+    """one analysed module (plus checker-supplied models of its collaborators)"""
+
+    def __init__(self, mod, externals=None, env=None, exception_names=()):
+        from sa.astx import module_consts
+        from sa.source import methods as _methods, class_assigns as _cassigns, base_names as _bases
+        self.mod = mod
+        _mc, _cc, _bc = {}, {}, {}
+
+        def cached(table, f):
+            def g(cls):
+                hit = table.get(id(cls))
+                if hit is None or hit[0] is not cls:
+                    hit = (cls, f(cls))
+                    table[id(cls)] = hit
+                return hit[1]
+            return g
+        self._methods, self._cassigns, self._bases = cached(_mc, _methods), cached(_cc, _cassigns), cached(_bc, _bases)
+        self._lookup_cache = {}
+        self._class_values = {}
+        self._resolved = {}
+        self.externals = dict(externals or {})
+        self.env = dict(module_consts(mod))
+        self.env.update(module_patterns(mod))
+        self.env.update(env or {})
+        self.exception_names = set(exception_names)
+        self.funcs = _FuncTable(self.externals, self.resolve)
+        self.linked = []            # other Worlds whose classes may be base classes of ours (e.g. static.File(filepath.FilePath))
+        self.overrides = {}         # method name -> python callable(obj, *args): replaces a repository method that needs the operating system
+        self._owner = {}            # id(function node) -> World that owns it
+
+    def link(self, other):
+        self.linked.append(other)
+        return self
+
+    def override(self, name, func):
+        self.overrides[name] = func
+        return self
+
+    def find_class(self, name):
+        node = self.mod.find(name)
+        if isinstance(node, ast.ClassDef):
+            return node, self
+        for o in self.linked:
+            node = o.mod.find(name)
+            if isinstance(node, ast.ClassDef):
+                return node, o
+        return None, None
+
+    # ---- name resolution
+    def _is_exception(self, cls, seen=()):
+        for b in self._bases(cls):
+            if b.endswith("Exception") or b.endswith("Error") or b in self.exception_names:
+                return True
+            bc = self.mod.find(b)
+            if isinstance(bc, ast.ClassDef) and b not in seen and self._is_exception(bc, seen + (b,)):
+                return True
+        return False
+
+    def resolve(self, name):
+        if not isinstance(name, str) or "." in name:
+            return None
+        if name not in self._resolved:
+            self._resolved[name] = self._resolve(name)
+        return self._resolved[name]
+
+    def _resolve(self, name):
+        for wld in [self] + self.linked:
+            node = wld.mod.find(name)
+            if isinstance(node, (ast.FunctionDef, ast.AsyncFunctionDef)):
+                return (lambda node, wld: lambda *a, **k: wld.call(node, a, k))(node, wld)
+            if isinstance(node, ast.ClassDef):
+                if wld._is_exception(node):
+                    return (lambda name: lambda *a, **k: MExc(name, a))(name)
+                return RepoClass(wld, node)
+        return None
+
+    def lookup(self, cls, name, _seen=None):
+        if _seen is None:
+            key = (id(cls), name, len(self.overrides))
+            hit = self._lookup_cache.get(key)
+            if hit is not None and hit[0] is cls:
+                return hit[1]
+            r = self._lookup(cls, name, set())
+            if r is None or r[0] in ("method", "python"):
+                self._lookup_cache[key] = (cls, r)
+            return r
+        return self._lookup(cls, name, _seen)
+
+    def _lookup(self, cls, name, _seen):
+        if cls.name in _seen:
+            return None
+        _seen.add(cls.name)
+        if name in self.overrides:
+            f = self.overrides[name]
+            return ("python", f)
+        ms = self._methods(cls)
+        ca1 = self._cassigns(cls)
+        if name in ms and _is_stub(ms[name]) and not (name in ca1 and getattr(ca1[name], "lineno", 0) > getattr(ms[name], "lineno", 0)):
+            # a typing stub (``if TYPE_CHECKING: def descendant(...): ...``): the real definition is inherited
+            for b in self._bases(cls):
+                bc, owner = self.find_class(b)
+                if bc is not None:
+                    r = owner.lookup(bc, name, set(_seen))
+                    if r:
+                        return r
+        ca0 = self._cassigns(cls)
+        rebound = name in ms and name in ca0 and getattr(ca0[name], "lineno", 0) > getattr(ms[name], "lineno", 0)      # `f = wrap(f)` after `def f`: the later binding wins
+        if name in ms and not rebound:
+            _FN_OWNER[id(ms[name])] = (ms[name], self)
+            deco = [src(d) for d in ms[name].decorator_list]
+            if "property" in deco:
+                return ("value", None)
+            return ("method", ms[name])
+        ca = self._cassigns(cls)
+        if name in ca:
+            v = ca[name]
+            if isinstance(v, ast.Name) and v.id in ms:
+                return ("method", ms[v.id])
+            try:
+                return ("value", const_eval(v, self.env))
+            except NotConst:
+                key = (id(cls), name)
+                if key not in self._class_values:
+                    env2 = dict(self.env)
+                    for mname, mfn in ms.items():
+                        env2.setdefault(mname, _FnRef(mfn))
+                    try:
+                        self._class_values[key] = subst_eval(v, {}, env2, self.funcs)
+                    except NotConst:
+                        self._class_values[key] = None
+                return ("value", self._class_values[key])
+        for b in self._bases(cls):
+            bc, owner = self.find_class(b)
+            if bc is not None:
+                r = owner.lookup(bc, name, _seen)
+                if r:
+                    return r
+        return None
+
+    # ---- execution
+    def new(self, cls, *args, **kwargs):
+        if isinstance(cls, str):
+            cls = self.mod.find(cls)
+        obj = RepoObject(self, cls)
+        init = self.lookup(cls, "__init__")
+        if init and init[0] == "method":
+            self.call(init[1], args, kwargs, selfobj=obj)
+        return obj
+
+    def bare(self, cls, **state):
+        """an instance without running __init__ (its collaborators cannot be built here): the checker sets the attributes the analysed methods read"""
+        if isinstance(cls, str):
+            cls = self.mod.find(cls)
+        obj = RepoObject(self, cls)
+        for k, v in state.items():
+            setattr(obj, k, v)
+        return obj
+
+    def call(self, fn, args, kwargs=None, selfobj=None):
+        hit = _FN_OWNER.get(id(fn))
+        owner = hit[1] if hit is not None and hit[0] is fn else self
+        if owner is not self and owner.mod is self.mod:
+            owner = self                     # another World over the same module (e.g. different parameters): the function is ours too
+        if owner is not self and owner not in self.linked:
+            owner = next((o for o in self.linked if o.mod is owner.mod), owner)
+        if owner is not self:
+            return owner.call(fn, args, kwargs, selfobj)
+        if _is_generator_fn(fn):
+            return GenThunk(lambda hook: call_repo(fn, args, kwargs, selfobj=selfobj, funcs=self.funcs, env=self.env, nested_call=None, on_yield=hook), getattr(fn, "name", "?"))
+        deco = [src(d) for d in getattr(fn, "decorator_list", [])]
+        if selfobj is not None and "staticmethod" in deco:
+            selfobj = None
+            return call_repo(fn, args, kwargs, selfobj=None, funcs=self.funcs, env=self.env, nested_call=None, bind_self=False)
+        return call_repo(fn, args, kwargs, selfobj=selfobj, funcs=self.funcs, env=self.env, nested_call=None)
+
+    def method(self, obj, name):
+        return getattr(obj, name)
+
+
+class Swallow:
+    """context manager model: swallows (and records) an exception raised in its block, like Logger.failureHandler / failuresHandled"""
+    _sa_model = True
+    _sa_swallow = True
+
+    def __init__(self, *a, **k):
+        self.failed = False
+
+
+class NullLogger:
+    _sa_model = True
+
+    def __getattr__(self, name):
+        if name.startswith("__"):
+            raise AttributeError(name)
+        if name in ("failureHandler", "failuresHandled"):
+            return lambda *a, **k: Swallow()
+        return lambda *a, **k: None
+
+
+def swallowing_env(mod):
+    """{name: Swallow()} for module-level ``X = <logger>.failureHandler(...)`` assignments"""
+    out = {}
+    for st in mod.tree.body:
+        if isinstance(st, ast.Assign) and isinstance(st.value, ast.Call) and call_attr(st.value) in ("failureHandler", "failuresHandled"):
+            for t in st.targets:
+                if isinstance(t, ast.Name):
+                    out[t.id] = Swallow()
+    return out
